@@ -26,47 +26,49 @@ pub fn ent(a: &Action) -> (u8, u8, u8) {
 
 /// Facts about a (possibly projected) list; `focus` = Some(f) under projection.
 /// `max` is the (concrete) iteration bound; a longer list fails the CUT assertion (never a
-/// pass). Plain loops with a concrete bound: the goto program stays small (a macro-unrolled
-/// version of this function made goto-instrument run for minutes).
-fn check_list(s: &Scn, list: &Vec<Action>, focus: Option<u8>, max: usize) {
+/// pass). Soundness and distinctness are stated for ONE symbolic entry index k (and one symbolic
+/// j < k): the solver quantifies over the indices, so every entry / every pair is covered with a
+/// single evaluation of the rule model (checking all 9 entries in one formula did not finish
+/// within the cap). Plain loops with a concrete bound keep the goto program small.
+fn check_list(s: &Scn, list: &Vec<Action>, focus: Option<u8>, max: usize, k: usize, j: usize) {
     let len = list.len();
     assert!(len <= max, "CUT: action list longer than the unrolling width");
+    // pass <=> legal pass (scan of the kinds only)
     let mut has_pass = false;
-    let mut k = 0usize;
-    while k < max {
-        if k < len {
-            let (kind, sq, dir) = ent(&list[k]);
+    let mut i = 0usize;
+    while i < max {
+        if i < len {
+            let (kind, _, _) = ent(&list[i]);
             assert!(kind != 2, "C01: a placement is offered in the play phase");
-            if kind == 1 {
-                assert!(model::pass_legal(s.step, s.pending), "C01: pass offered although illegal (step 0 or push pending)");
-                has_pass = true;
-            } else {
-                let c = model::classify_step(&s.board, s.gold, s.step, s.pending, sq, dir);
-                assert!(c != StepKind::Illegal, "C01: an offered step is not a legal step, push or pull");
-                if let Some(f) = focus {
-                    assert!(
-                        sq == f || c == StepKind::PullCompletion || c == StepKind::CompletePush,
-                        "C01: projection broken (entry from a non-focus square that is no pull/push completion)"
-                    );
-                }
-            }
-            // no action listed twice
-            let mut j = 0usize;
-            while j < k {
-                let (kind2, sq2, dir2) = ent(&list[j]);
-                assert!(
-                    !(kind2 == kind && sq2 == sq && dir2 == dir),
-                    "C01: an action is listed twice"
-                );
-                j += 1;
-            }
+            has_pass |= kind == 1;
         }
-        k += 1;
+        i += 1;
     }
     assert!(
         has_pass == model::pass_legal(s.step, s.pending),
-        "C01: pass not offered although a step was made and no push is pending"
+        "C01: pass offered <=> a step was made and no push is pending - violated"
     );
+    if k < len {
+        let (kind, sq, dir) = ent(&list[k]);
+        if kind == 0 {
+            let c = model::classify_step(&s.board, s.gold, s.step, s.pending, sq, dir);
+            assert!(c != StepKind::Illegal, "C01: an offered step is not a legal step, push or pull");
+            if let Some(f) = focus {
+                assert!(
+                    sq == f || c == StepKind::PullCompletion || c == StepKind::CompletePush,
+                    "C01: projection broken (entry from a non-focus square that is no pull/push completion)"
+                );
+            }
+        }
+        // no action listed twice
+        if j < k {
+            let (kind2, sq2, dir2) = ent(&list[j]);
+            assert!(
+                !(kind2 == kind && (kind != 0 || (sq2 == sq && dir2 == dir))),
+                "C01: an action is listed twice"
+            );
+        }
+    }
 }
 
 fn contains_move(list: &Vec<Action>, max: usize, i: u8, d: u8) -> bool {
@@ -137,7 +139,7 @@ pub fn c01_proj<const STEP: usize, const KIND: u8>(inp: &Inp) -> Verdict {
         // (projected length: <= 4 entries from f + <= 3 pulls from elsewhere + pass; a pending
         // push lists <= 4 completions)
         let max = if KIND == KIND_PUSH { 4 } else { 9 };
-        check_list(&s, &list, Some(f), max);
+        check_list(&s, &list, Some(f), max, (s.aux % 16) as usize, (s.probe % 16) as usize);
         // completeness: every legal step from the focus square is listed
         let d = s.a_dir;
         let c = model::classify_step(&s.board, s.gold, s.step, s.pending, f, d);
@@ -181,7 +183,7 @@ pub fn c01_small<const STEP: usize, const KIND: u8, const KP: u32>(inp: &Inp) ->
     #[cfg(kani)]
     {
         let max = (4 * KP + 1) as usize;
-        check_list(&s, &list, None, max);
+        check_list(&s, &list, None, max, (s.aux % 32) as usize, (s.probe % 32) as usize);
         let c = model::classify_step(&s.board, s.gold, s.step, s.pending, s.a_sq, s.a_dir);
         if c != StepKind::Illegal {
             assert!(contains_move(&list, max, s.a_sq, s.a_dir), "C01: a legal step is not offered");
